@@ -83,6 +83,32 @@ def run(c):
         add("plain", base + [u] * 3000)
         if thorough or rng.random() < 0.1:
             add("plain", base + [u] * 66000)
+    # self-similar inputs: a message nested again and again inside its own container element (must stay linear)
+    for t in TABLES:
+        if t["family"] == "ENV": continue
+        cont = [s_ for s_ in t["slots"] if s_["lsz"] == 2 and s_["data"] == "buf" and s_["max"] >= 65535 and ("Container" in s_["name"] or "EAP" in s_["name"])]
+        if not cont: continue
+        s_ = cont[0]
+        mv = minimal_value(t["name"])
+        mslots = [q for q in t["slots"] if q["mand"]]
+        def build(inner):
+            out = []
+            for val, ts in zip(mv["mand"], mslots):
+                if ts["name"] == s_["name"] and ts["mand"]:
+                    out += [len(inner) >> 8, len(inner) & 255] + inner
+                else:
+                    out += ([val["len"]] if ts["lsz"] == 1 else [val["len"] >> 8, val["len"] & 255] if ts["lsz"] == 2 else []) + val["v"][:(val["len"] if ts["lsz"] else len(val["v"]))]
+            if not s_["mand"]:
+                out += [s_["iei"], len(inner) >> 8, len(inner) & 255] + inner
+            return out
+        inner = build([0] * max(s_["min"], 1))
+        depth = 0
+        while True:
+            nxt = build(inner)
+            if len(nxt) > 65000: break
+            inner = nxt; depth += 1
+        add("plain", inner)
+        if thorough: add(FAM_ENTRY[t["family"]], inner)
     smp = samples()
     for name, b in smp:
         add("plain", b)
@@ -145,7 +171,15 @@ def run(c):
         if ok:
             c.report("Decode", "hang", "decode did not return within 20 s (case %d, entry %s, %d octets)" % (hang, bad.get("entry"), len(bad.get("inp") or [])), bad)
         else:
-            raise Infra("watchdog fired at case %d but the hang was not reproduced" % hang)
+            # not reproduced alone: does it need the calls that preceded it?  re-run the prefix in a fresh process
+            lo = max(0, hang - 400)
+            ev2, hang2 = run_codec(c, drv, cases[lo:hang + 1], name="confirm-hist")
+            if hang2 is not None:
+                prev = cases[lo + hang2 - 1] if hang2 > 0 else None
+                c.report("Decode", "hang-after-history", "decode did not return within 20 s after earlier calls in the same process (case %d, entry %s, %d octets); alone it returns" % (hang, bad.get("entry"), len(bad.get("inp") or [])),
+                         dict(case=cases[lo + hang2], previous_case=prev, note="re-run the preceding cases in one process to reproduce"))
+            else:
+                raise Infra("watchdog fired at case %d but the hang was reproduced neither alone nor after the preceding 400 cases" % hang)
     c.cov["evaluations"] = len(events)
     mism = c.validate("Trace_C01", events, shards=14)
     # map event index -> case (rand cases expand); only needed for replay
